@@ -106,6 +106,14 @@ def run(repo, res):
         for ch in '\t':
             if shape(pat, 'ab' + ch + 'cd_1') != 'cd_1':
                 bad.append(ch)
+        # cursor directly after a boundary or at the start of the line: the prefix is empty
+        for probe in ('', 'foo(', 'x = ', 'a.'):
+            try:
+                got = shape(pat, probe)
+            except Exception as e:
+                got = 'ERROR %s' % type(e).__name__
+            if got != '':
+                bad.append('empty prefix after %r -> %s' % (probe, got))
         res.check('C12-R1', 'prefix regex %r boundaries' % pat, not bad, ASSIST, c.lineno,
                   'the prefix pattern %r (%s) does not cut the identifier run at %s: for `x=fo|` it returns `x=fo`; the '
                   'boundary set must be the complement of [A-Za-z0-9_]' % (pat, fn, ' '.join(repr(b) for b in bad[:12])),
